@@ -126,6 +126,14 @@ theorem unmarked0_of_level {h : Heap} (H : HInv h) {c i : Nat} (hc : c < h.lengt
     | false => exact ⟨q, hw0⟩
     | true => have := H.h4 _ _ _ _ _ _ hw0 (Nat.zero_le i) hw; simp at this
 
+/-- the end of Next leaves the thread outside findPath -/
+theorem SPC_afterNext (h : Heap) (sh : Shared) (th : Thread) (it : Nat) : SPC h (afterNext sh th it).2.1.pc := by
+  unfold afterNext
+  simp only []
+  split
+  · split <;> trivial
+  · trivial
+
 theorem SPC_afterRead {sh : Shared} {th : Thread} (H : HInv sh.heap) (R : ReachInv sh.heap) (fp : FP)
     (hf : FPInv sh.heap th fp) (hcl : CurrLv sh.heap fp)
     (hL : fp.startLen ≤ sh.heap.length) (j1 : J1 sh.heap fp) (j2 : J2 sh.heap fp) :
@@ -173,7 +181,10 @@ theorem SPC_afterRead {sh : Shared} {th : Thread} (H : HInv sh.heap) (R : ReachI
           · trivial
         · trivial
         · trivial
-        · split <;> trivial
+        · split
+          · trivial
+          · exact SPC_afterNext ..
+        · trivial
         · trivial
 
 theorem SInv_stepFindLevel {sh : Shared} {th : Thread} (fp : FP) (hT : TInv sh.heap th)
@@ -237,6 +248,14 @@ theorem fresh_enterSoft (sh : Shared) (th : Thread) (item n i : Nat) (m : Bool) 
   · trivial
   · split <;> trivial
 
+theorem fresh_afterNext (sh : Shared) (th : Thread) (it : Nat) :
+    FreshPC (afterNext sh th it).1.heap (afterNext sh th it).2.1.pc := by
+  unfold afterNext
+  simp only []
+  split
+  · split <;> trivial
+  · trivial
+
 theorem fresh_insCheckSucc (sh : Shared) (th : Thread) (item x lvl i next : Nat) :
     FreshPC (insCheckSucc sh th item x lvl i next).1.heap (insCheckSucc sh th item x lvl i next).2.1.pc := by
   unfold insCheckSucc
@@ -282,11 +301,14 @@ theorem fresh_step {sh : Shared} {th : Thread}
     exact fresh_enterSoft ..
   · exact fresh_startFind ..
   · unfold stepIterNext; simp only []
-    split <;> trivial
-  · unfold stepIterHelp; simp only []
     split
     · trivial
+    · exact fresh_afterNext ..
+  · unfold stepIterHelp; simp only []
+    split
+    · exact fresh_afterNext ..
     · exact fresh_startFind ..
+  · exact fresh_startFind ..
 
 theorem SInv_stepHelpDelete {sh : Shared} {th : Thread} (fp : FP) (next : Nat)
     (R' : ReachInv (stepHelpDelete sh th fp next).1.heap)
@@ -324,7 +346,7 @@ theorem SInv_stepThread {sh : Shared} {th : Thread} {ev : Event} (H : HInv sh.he
     have : SPC sh.heap (.helpDelete fp next) := by unfold SInv at hS; rw [hpc] at hS; exact hS
     exact this.stable H e hs
   | newLevel _ _ _ | insPublish _ _ | insUpRead _ _ _ _ | insUpLink _ _ _ _ _ | softMark _ _ _ _ _ | delSearch _
-  | iterNext _ | iterHelp _ _ =>
+  | iterNext _ | iterHelp _ _ | iterRefresh _ =>
     exact SPC_of_fresh R' (fresh_step (by simp [hpc]) (by simp [hpc]) (by simp [hpc]) (by simp [hpc]))
 
 /-! ### system level -/
@@ -346,7 +368,7 @@ theorem fresh_startOp (sh : Shared) (th : Thread) (op : Op) (hidle : th.pc = .id
     · exact fresh_startFind ..
   · exact fresh_startFind ..
   · exact fresh_startFind ..
-  · simp only [Thread.setIter, hidle]; trivial
+  · simp only [Thread.moveIter, Thread.setIter, hidle]; trivial
   · exact fresh_startFind ..
   · split
     · split
@@ -355,6 +377,11 @@ theorem fresh_startOp (sh : Shared) (th : Thread) (op : Op) (hidle : th.pc = .id
     · rw [hidle]; trivial
   · split
     · simp only [hidle]; trivial
+    · rw [hidle]; trivial
+  · split
+    · split
+      · simp only [Thread.setIter, hidle]; trivial
+      · rw [hidle]; trivial
     · rw [hidle]; trivial
 
 theorem Sys.step_none {s : Sys} {t : Nat} (h : s.threads[t]? = none) : (s.step t).1 = s := by
